@@ -3,6 +3,7 @@ import OmplModel.Model.ReedsShepp
 import OmplModel.Model.Owen
 import OmplModel.Model.Vana
 import OmplModel.Model.VanaOwen
+import OmplModel.Model.Motion
 import OmplModel.Driver.Common
 /-! Line-protocol driver for the Dubins model.
 Header `dubins rho=<bits> sym=<0|1> lo=<bits> hi=<bits>` (the bounds are set on the real space only;
@@ -36,6 +37,7 @@ structure St where
   pitch : Float := 0.0
   lastArc : Bool := false
   vo : Bool := false
+  absPhi : Bool := false
 
 def kv? (key : String) (tok : String) : Option String :=
   if tok.startsWith (key ++ "=") then some (tok.drop (key.length + 1)).toString else none
@@ -79,6 +81,13 @@ def init (ts : List String) : Option St :=
     let _ ← (kv? "lo" lo) >>= parseFloatBits?
     let _ ← (kv? "hi" hi) >>= parseFloatBits?
     pure { rho := r, sym := false, owen := true, tanp := Float.tan p }
+  | ["owen", r, p, lo, hi, ap] => do
+    let r ← (kv? "rho" r) >>= parseFloatBits?
+    let p ← (kv? "pitch" p) >>= parseFloatBits?
+    let _ ← (kv? "lo" lo) >>= parseFloatBits?
+    let _ ← (kv? "hi" hi) >>= parseFloatBits?
+    let ap ← kv? "absphi" ap
+    pure { rho := r, sym := false, owen := true, tanp := Float.tan p, absPhi := ap == "1" }
   | _ => none
 
 def pose? : List String → Option (Pose Float)
@@ -297,9 +306,41 @@ def stepOwen (st : St) (ts : List String) : St × String :=
       match OmplModel.Owen.getPathWith st.rho st.tanp root s1 s2 with
       | some p =>
         (st, "cat=" ++ p.category ++ " " ++ showPath p.path ++ " r=" ++ floatBits p.r ++ " dz=" ++ floatBits p.dz ++
-          " phi=" ++ floatBits p.phi ++ " k=" ++ toString p.k.toUInt64 ++ " len=" ++ floatBits p.len)
+          " phi=" ++ floatBits p.phi ++ " k=" ++ toString p.k.toUInt64 ++ " len=" ++ floatBits (if st.absPhi then p.lenAbs else p.len))
       | none => (st, "nopath")
     | _, _, _ => (st, "bad-op")
+  | ["owmvr", which, a, b, c, d, e, f, g, h, zmax, root, lseg] =>
+    -- the real Dubins3DMotionValidator<OwenStateSpace>: C05's `Motion.checkMotion2/3 .dubins3D` decides which subdivision
+    -- indices are asked in which order; the state asked at index j is this model's interpolate(s1, s2, j/nd, cached path);
+    -- validity = `z <= zmax` on that state.  `root` (`none` = getPath failed) and `L` are recorded answers.
+    match st4? [a, b, c, d], st4? [e, f, g, h], parseFloatBits? zmax, parseFloatBits? lseg with
+    | some s1, some s2, some zmax, some lseg =>
+      let path := if root == "none" then none else
+        match parseFloatBits? root with
+        | some r => OmplModel.Owen.getPathWith st.rho st.tanp r s1 s2
+        | none => none
+      let n := match path with
+        | some p => OmplModel.Motion.segCount 1 (if st.absPhi then p.lenAbs else p.len) lseg
+        | none => 0
+      let stateAt (j : Nat) : OmplModel.Owen.St4 Float :=
+        match path with
+        | some p => if j == n && which == "2" then s2 else
+            (if j == n then s2 else OmplModel.Owen.interpWith s1 s2 (Float.ofNat j / Float.ofNat n) p)
+        | none => s2
+      let v (j : Nat) : Bool := decide ((stateAt j).z ≤ zmax)
+      let r := if which == "2" then OmplModel.Motion.checkMotion2 .dubins3D path.isSome n v
+               else OmplModel.Motion.checkMotion3 .dubins3D path.isSome n v
+      let show4 (q : OmplModel.Owen.St4 Float) : String := ",".intercalate [floatBits q.x, floatBits q.y, floatBits q.z, floatBits q.yaw]
+      let qs := r.queries.map (fun j => show4 (stateAt j))
+      let lv := match r.failAt, path with
+        | some j, some p =>
+          let t := Float.ofInt ((j : Int) - 1) / Float.ofNat n   -- `(double)(j - 1) / (double)nd` with `int` operands (nd = 0 gives -inf)
+          floatBits t ++ ":" ++ show4 (OmplModel.Owen.interpWith s1 s2 t p)
+        | _, _ => "none"
+      (st, "res=" ++ (if r.verdict then "1" else "0") ++ " nd=" ++ (if path.isSome then toString n else "-") ++ " L=" ++ floatBits lseg ++
+        " q=" ++ toString qs.length ++ " " ++ (if qs.isEmpty then "-" else ";".intercalate qs) ++ " lv=" ++ lv ++
+        " dv=" ++ toString r.dValid ++ " di=" ++ toString r.dInvalid)
+    | _, _, _, _ => (st, "bad-op")
   | ["owinterpr", a, b, c, d, e, f, g, h, t, root] =>
     match st4? [a, b, c, d], st4? [e, f, g, h], parseFloatBits? t, parseFloatBits? root with
     | some s1, some s2, some t, some root =>
